@@ -14,7 +14,9 @@ pub(crate) struct SpecialPrefixBackend<B: Backend> {
 }
 
 lazy_static! {
-    static ref RE: Regex = Regex::new("^item([0-9]+)").unwrap();
+    // only the canonical spelling `item<N>` (no suffix, no leading zeros) is special, so that distinct
+    // identifiers never share a symbol
+    static ref RE: Regex = Regex::new("^item(0|[1-9][0-9]*)$").unwrap();
 }
 
 #[derive(Derivative)]
